@@ -478,6 +478,15 @@ def _strategy_a(shapes):
                          "Lambda": draw(gen.arr((n, 1, 1), 0.3, 4.0)), "nu": draw(gen.arr((n, 1), -2, 2)), "ln_beta": draw(gen.arr((n,), -1, 1)),
                          "lo": draw(gen.arr((n, 1), -2.0, 0.0)), "width": draw(gen.arr((n, 1), 0.2, 3.0)),
                          "one_sided": draw(st.sampled_from(["no", "lower", "upper"])), "xs": draw(gen.arr((3, 1), -3, 3))})
+            # mixed batch: one component truncated deep in its upper tail, the others around their modes
+            if draw(st.sampled_from([False, False, True])):
+                k = draw(st.integers(0, n - 1))
+                z = draw(gen.floats(6.0, 9.5))
+                lam_k, nu_k = float(case["Lambda"][k, 0, 0]), float(case["nu"][k, 0])
+                lo = np.asarray(case["lo"], float).copy()
+                lo[k, 0] = nu_k / lam_k + z / np.sqrt(lam_k)
+                case["lo"] = lo
+                case["far_tail_component"] = k
             return case
         case["px"] = {"Sigma": draw(gen.spd(n, Dx, kappa=6.0, lam_lo=0.2, lam_hi=0.5)), "mu": draw(gen.arr((n, Dx), -1.5, 1.5))}
         case["q"] = {"Sigma": draw(gen.spd(n, Dx + Dy, kappa=6.0, lam_lo=0.2, lam_hi=0.5)), "mu": draw(gen.arr((n, Dx + Dy), -1.5, 1.5))}
